@@ -84,7 +84,7 @@ example : ∃ q, q ≠ C01a.exPos ∧ GenReach realKeys C01a.exPos q ∧ WF q = 
 
 /-- the evaluation is bounded on `GenReach` (C15): the hypothesis `heval` of C04c / `EvalBounded` of C13b, discharged -/
 theorem genReach_eval_bounded (K : Keys) (root : Pos) (hwf : WF root = true) (hmat : LegalMaterial root) (p : Pos)
-    (hp : GenReach K root p) (v : Int) (hv : evalRaw p = some v) : -15145 ≤ v ∧ v ≤ 15145 :=
+    (hp : GenReach K root p) (v : Int) (hv : evalRaw p = some v) : -evalBound ≤ v ∧ v ≤ evalBound :=
   GR.genReach_eval K root hwf hmat p hp v hv
 
 /-! ### C04c, closed -/
